@@ -316,9 +316,9 @@ fn random_kind(r: &mut Rng, tier: Tier, index: u64) -> Kind {
             seam: r.chance(1, 3),
         },
         4 | 5 => Kind::Pulse { wire: r.usize(0, 255), bin: r.usize(0, 300), row: r.usize(0, 575), amp: *r.pick(&[80.0, 20.0, 300.0]) },
-        7 if r.chance(1, 2) => Kind::RealHits { run: *r.pick(&[11084u32, 11192, 12000, 9277, 10418, 7026]), pattern: r.below(24) as u8, n: *r.pick(&[1usize, 13, 40, 256]) },
+        7 if r.chance(1, 2) => Kind::RealHits { run: *r.pick(&[11084u32, 11192, 12000, 9277, 10418, 7026]), pattern: *r.pick(&[r.clone().below(24) as u8, 25]), n: *r.pick(&[1usize, 13, 40, 256]) },
         6 | 7 => Kind::Hits { pattern: r.below(25) as u8, n: if tier == Tier::Thorough && r.chance(1, 20) { *r.pick(&[600usize, 1000, 2000]) } else { *r.pick(&[1usize, 2, 12, 13, 14, 30, 60, 256]) } },
-        8 => Kind::Random { n: r.usize(0, 12) },
+        8 if index % 20 == 8 => Kind::Random { n: r.usize(0, 12) },
         _ => Kind::EvFault {
             base: BaseEvent {
                 // (half of them on a run number where the current sources switch a map or calibration)
@@ -334,7 +334,7 @@ fn random_kind(r: &mut Rng, tier: Tier, index: u64) -> Kind {
                 suppressed_only: false,
             },
             // (every inconsistency of the list in turn, so that the quick tier delivers each of them)
-            slot: { let _ = r.usize(0, 36); ((index / 10) % 37) as usize },
+            slot: { let _ = r.usize(0, 36); ((if index % 10 == 9 { index / 10 } else { index / 20 + 19 }) % 38) as usize },
         },
     }
 }
@@ -671,6 +671,29 @@ fn kind_banks_hits(r: &mut Rng, pattern: u8, n: usize, run: Option<u32>) -> (u32
                     // random cloud
                     _ => Av { wire: r.usize(0, 255), bin: r.usize(0, 280), z: r.f64_range(-1.15, 1.15), wire_amp: r.f64_range(5.0, 300.0), pad_amp: r.f64_range(50.0, 2500.0) },
                 });
+            }
+            if pattern == 25 {
+                // calibration holes: hits on pads for which the run has one calibration table entry but
+                // not the other (a baseline without a gain, or a gain without a baseline) - one kind per
+                // event, so that the other kind's lookup cannot fail first
+                let run_n = run.unwrap_or(fwd::SIM_RUN);
+                let cal = crate::refcal::cal_for(run_n);
+                let (mut only_base, mut only_gain): (Vec<(usize, usize)>, Vec<(usize, usize)>) = (Vec::new(), Vec::new());
+                if let (Some(b), Some(g)) = (cal.pad_baseline.as_ref(), cal.pad_gain.as_ref()) {
+                    only_base = b.keys().filter(|k| !g.contains_key(k)).copied().collect();
+                    only_gain = g.keys().filter(|k| !b.contains_key(k)).copied().collect();
+                }
+                only_base.sort();
+                only_gain.sort();
+                let holes = if !only_base.is_empty() && (only_gain.is_empty() || w0 % 3 != 0) { only_base } else { only_gain };
+                if !holes.is_empty() {
+                    let start = r.usize(0, holes.len() - 1);
+                    avs.clear();
+                    for k in 0..n.clamp(1, 6) {
+                        let (col, row) = holes[(start + 2 * k) % holes.len()];
+                        avs.push(Av { wire: (8 * col + 8 + r.usize(0, 7)) % 256, bin: 100 + 3 * k, z: (row as f64 + 0.5) * 0.004 - 1.152, wire_amp: 200.0, pad_amp: 1500.0 });
+                    }
+                }
             }
             if pattern == 23 {
                 // a comb over a WHOLE pad column: every second of its 576 rows is a peak (287 pad hits in
